@@ -130,6 +130,14 @@ class Inconclusive(Exception):
     pass
 
 
+class LibraryCrash(Exception):
+    """The harness process died inside the library (unrecovered panic, runtime fatal error such as concurrent map
+    access): an execution of the real code that no behaviour of the specification contains."""
+    def __init__(self, what, log_path):
+        Exception.__init__(self, what)
+        self.what, self.log_path = what, log_path
+
+
 # ------------------------------------------------------------------ building the harness
 def harness_overlay(work, accessor, groups=("main",)):
     rep = {}
@@ -450,6 +458,14 @@ def record_pass(prop, gname, groups, tier, seed, scale, work, tdir):
         env["GORACE"] = "halt_on_error=0 log_path=%s" % os.path.join(work, "race")
     r = subprocess.run(cmd, capture_output=True, text=True, env=env, timeout=3600)
     if r.returncode not in (0, 66) or not r.stdout.strip():
+        err = r.stderr or ""
+        m = re.search(r"^(panic: .*|fatal error: .*)$", err, re.M)
+        lib_frames = [l for l in err.splitlines() if "github.com/bytemare/secp256k1" in l and "verifharness" not in l]
+        if m and lib_frames:
+            keep = os.path.join(VERIF, "replays", "%s_%s_%d_crash.txt" % (prop, tier, seed))
+            os.makedirs(os.path.dirname(keep), exist_ok=True)
+            open(keep, "w").write("generator %s, seed %d, tier %s, scale %s\n\n" % (gname, seed, tier, scale) + err[-20000:])
+            raise LibraryCrash("%s in %s" % (m.group(1)[:200], lib_frames[0].strip()[:200]), keep)
         raise Inconclusive("harness failed (rc=%d): %s" % (r.returncode, (r.stderr or r.stdout)[-3000:]))
     summary = json.loads(r.stdout.strip().splitlines()[-1])
     if race:
@@ -846,6 +862,14 @@ def main(argv):
             return 2
         finally:
             shutil.rmtree(work, ignore_errors=True)
+    if a.replay and a.replay.endswith(".txt"):
+        # a crash log or a race report: there is no recorded history to re-execute; run the check again
+        m = re.search(r"/(C\d+)_(quick|thorough)_(\d+)_", a.replay)
+        if m and not prop:
+            prop = m.group(1)
+        if m:
+            a.tier, a.seed = m.group(2), int(m.group(3))
+        a.replay = None
     if a.replay and not prop:
         prop = json.load(open(a.replay))["property"]
     if not prop:
@@ -860,6 +884,13 @@ def main(argv):
         else:
             import checkextra
             rc = checkextra.run(prop, a.tier, a.seed, work, replay=a.replay, scale=a.scale)
+    except LibraryCrash as e:
+        log("  the harness process died inside the library: %s" % e.what)
+        write_evidence(prop, a.tier, a.seed, {"states": 1, "transitions": 1, "traces_validated_against_impl": 0, "evaluations": 1, "distinct_nontrivial": 2,
+                                              "samples": [{"crash": e.what}], "explanation": "the recorded execution ended in a crash of the library"},
+                       time.time() - t0, 1, ASSUME)
+        print("VIOLATION property=%s replay=%s" % (prop, e.log_path), flush=True)
+        rc = 1
     except Inconclusive as e:
         log("INCONCLUSIVE: %s" % e)
         rc = 2
